@@ -86,10 +86,24 @@ def conformance(runs, res):
         got = []
         missing = None
         cut = ends.get(rid, 1 << 60)
+        inpre = False
+        offS = offR = 0
         for l in lines:
             e = json.loads(l)
             if e['k'] == 'Teardown':
                 break
+            if e['k'] == 'PrefixBegin':
+                inpre = True
+                continue
+            if e['k'] == 'PrefixEnd':
+                inpre, offS, offR = False, e['a'], e['b']
+                continue
+            if inpre:
+                continue        # the wrap prefix is not part of the generated behaviour
+            if e['k'] in ('Out', 'In') and e['svc'] in ('TunnelReq', 'TunnelRes') and e['seq'] >= 0:
+                # sequence numbers are compared relative to the position the prefix left the counters at
+                off = offS if (e['k'] == 'Out') == (e['svc'] == 'TunnelReq') else offR
+                e['seq'] = (e['seq'] - off) % 256
             if e['k'] in ('Skip', 'Delayed'):
                 # the schedule was not applicable from here on (a restriction of the virtual-time driver): compared
                 # up to this instant only. A datagram the specification expected in the network and the real run
